@@ -32,6 +32,10 @@ FINDINGS = {
     "C25-failed-create-drops-batch": "when createNewFile fails (header/name write error) ensureWriter returns the error, chronicler.Write logs it and "
                                      "returns: the whole batch is dropped although the swamp already took it off its write queue; the next "
                                      "batch recreates the file and is stored",
+    "C25-restored-buffer-overflows-entry-count": "flushLocked puts the entries of a failed block back into the buffer; during an outage the "
+                                                 "buffer grows past 65535 entries, CompressEntries stores uint16(len(entries)) in the block "
+                                                 "header, and the block written once the fault clears carries a wrapped count: ParseBlock "
+                                                 "rejects it and the whole file, earlier durable records included, can no longer be loaded",
     "C25-fsync-error": "an fsync error made data unreadable",
     "C25-unexplained-loss": "records missing after a fault-free run",
 }
@@ -89,7 +93,9 @@ def run(ctx):
         i, why, _ = unflagged[0]
         rep = K.case_replay(c, K.case_of(c, i), upto=i)
         rep.update({"correspondence": "C25", "oracle": "spec_scan", "violations": len(unflagged)})
-        ctx.violation("implementation violates the property (not predicted by the model): " + why, rep, tag="spec")
+        fl = c.flags[i] if i < len(c.flags) else []
+        how = ("predicted by the model as %s" % ",".join(fl)) if fl else "not predicted by the model"
+        ctx.violation("implementation violates the property (%s): %s" % (how, why), rep, tag="spec")
     if ctx.thorough:
         ok, out = K.leanchecker(ctx, ["Hv.Props.C25", "Hv.Storage.FaultLemmas", "Hv.Storage.Fault"])
         ctx.cov["leanchecker"] = "ok" if ok else out[-500:]
